@@ -190,7 +190,7 @@ func runC04(t *testing.T, x c04Scn, verbose bool) vfCase {
 						s.o.settle(time.Millisecond)
 					}
 				}
-				s.o.run(func() bool { return vfAllDelivered(s) }, time.Now().Add(vfDrainBound(&sc)))
+				s.waitHealed(func() bool { return vfAllDelivered(s) }, vfDrainBound(&sc))
 				check("after stale handshake packets")
 				deliveredOK("after stale handshake packets")
 				c.class("stale-reinjection")
@@ -202,7 +202,7 @@ func runC04(t *testing.T, x c04Scn, verbose bool) vfCase {
 				check("after idling 5 minutes")
 				s.doWrite(0, 0, 700, 53)
 				s.doWrite(1, 1, 700, 53)
-				s.o.run(func() bool { return vfAllDelivered(s) }, time.Now().Add(vfDrainBound(&sc)))
+				s.waitHealed(func() bool { return vfAllDelivered(s) }, vfDrainBound(&sc))
 				deliveredOK("after idling 5 minutes")
 			}
 		}})
